@@ -83,6 +83,11 @@ def views(tier):
                     yield ("col", base, a, b, s, j)
             for r0, r1, c0, c1 in itertools.product((0, 1, None), (1, 2, None), (0, 1, None), (1, 3, None)):
                 yield ("sub", base, r0, r1, c0, c1)
+            # stepped, reversed and negative-bound sub-matrices
+            for (r0, r1, rs), (c0, c1, cs) in itertools.product(
+                    ((None, None, 2), (None, None, -1), (-2, None, None), (None, -1, None), (1, None, 2), (None, None, None)), repeat=2):
+                yield ("sub", base, r0, r1, c0, c1, rs, cs)
+                yield ("msum", ("sub", base, r0, r1, c0, c1, rs, cs))
             yield ("diag", base, "f")
             yield ("diag", base, "m")
             for i in range(rr):
